@@ -12,7 +12,7 @@ C16 — The two secp256k1 backends agree on every signature.
 is WITH `repo-patches/fix-C16-k256-recover-high-s.diff`; `k256RecoverPre` is the wrapper before that
 fix.  The curve is a parameter `E` with the group laws `CurveLaws E` as hypothesis.
 -/
-import FuelVerif.Lemmas.EcdsaSign
+import FuelVerif.Lemmas.EcdsaWrappers
 import FuelVerif.Lemmas.ToyCurve
 namespace FuelVerif.Ecdsa
 open FuelVerif
@@ -174,6 +174,19 @@ theorem sign_agree (L : CurveLaws E) (d k : Nat) (msg : Bytes)
       simp only [hn, L.findRecid_sign true d k z hk0 hk hd0 hd hx hr0 hs0]
       cases (yOdd E (E.mulG k) ^^ isHigh E.n (sVal E.n d k z (E.toXY (E.mulG k)).1)) <;> simp
 
+/-- **signing, all cases**: for every key and nonce in range the two wrappers either produce the same 64 bytes
+or both panic -/
+theorem sign_agree_all (L : CurveLaws E) (d k : Nat) (msg : Bytes)
+    (hk0 : k ≠ 0) (hk : k < E.n) (hd0 : d ≠ 0) (hd : d < E.n) :
+    (k256Sign E d k msg).toOption = (secpSign E d k msg).toOption := by
+  by_cases hx : (E.toXY (E.mulG k)).1 < E.n
+  · rw [sign_agree L d k msg hk0 hk hd0 hd hx]
+  · obtain ⟨e, he⟩ := L.k256Sign_reduced d k msg hk0 hk (Nat.le_of_not_lt hx)
+    rw [he]
+    cases hs : secpSign E d k msg with
+    | error e' => rfl
+    | ok sig => exact absurd (CurveLaws.secpSign_ok d k msg sig hk0 hs).hx hx
+
 /-! ### non-vacuity: the lawful toy curve `y² = x³ + 7` over F₄₃ (order 31), concrete inputs -/
 section Examples
 open FuelVerif.Ecdsa.Toy
@@ -220,6 +233,8 @@ example : k256Sign toy 7 2 exMsg = secpSign toy 7 2 exMsg :=
 -- nonce 3: x(3G) = 35 ≥ 31, the reduced-x case in which both wrappers panic (excluded by `hx`)
 example : secpSign toy 7 3 exMsg = .error .ReducedX := by decide +kernel
 example : isOk (k256Sign toy 7 3 exMsg) = false := by decide +kernel
+example : (k256Sign toy 7 3 exMsg).toOption = (secpSign toy 7 3 exMsg).toOption :=
+  sign_agree_all toy_laws 7 3 exMsg (by decide) (by decide) (by decide) (by decide)
 
 end Examples
 
